@@ -17,6 +17,6 @@ ENTRY = {
     ],
     "assumptions": [
         "the beacon node answers a duties request by filtering its per-epoch duty list by the requested indices, and changes its answers only at a reorg (for epochs after the reorged-to epoch), which is always followed by InvalidateCache",
-        "code as it is: answer theorems need OpOk (requests reaching storeOrAmend list each index once; no response crosses an invalidation of its epoch) — witnesses dup_on_amend_witness, inflight_invalidate_witness; private copies proved only for the cloning variant — witnesses shared_metadata_witness, shared_slice_witness",
+        "the code before the repairs (48745d4, 85f4ab0, a3c1d4e) violated the full statements: witnesses dup_on_amend_witness, inflight_invalidate_witness, shared_metadata_witness, shared_slice_witness; with all four switches on (Cfg.current) reach_all_fixed needs no side condition",
     ],
 }
